@@ -317,6 +317,7 @@ pub fn run(args: &[String]) -> i32 {
     }
     // 6. hash-order family (in-process, forced iteration orders)
     hashorder::c06_family(&mut rep);
+    hashorder::c06_internal_sets_family(&mut rep);
 
     rep.cov("states", json!(model_states.max(1)));
     rep.cov("transitions", json!(model_transitions.max(1)));
